@@ -163,6 +163,8 @@ type world struct {
 	nNotify int
 	jit     func() // jitter function for free-running mode
 
+	unknownCtr atomic.Int64
+
 	closeStarted bool
 }
 
@@ -586,16 +588,56 @@ func (w *world) notifyError(i int, msgID int64) {
 }
 
 func (w *world) ack(ids ...int) {
-	var m []int64
 	for _, i := range ids {
-		w.ev("ack.call", i, 0, "")
-		m = append(m, w.calls[i].cfg.MsgID)
-	}
-	w.eng.NotifyAcks(m)
-	for _, i := range ids {
-		w.ev("ack.ret", i, 0, "")
+		w.ackBatch(i, "-")
 	}
 }
+
+// ackShapes are the msgs_ack batch layouts the controller can deliver for a
+// primary call: '-' the id of the primary call, 'u' an id nobody waits on
+// (fresh each time), 'o' the id of the next call of the world (pending, already
+// completed or never started, whatever it is at that moment), 's' the id of the
+// call after that. Batches of 1..6 ids with the primary id first, last, in the
+// middle, repeated.
+var ackShapes = []string{"-", "u-", "-u", "uu-", "u-u", "--", "-u-", "uuu-", "uu-uu", "uuuuu-", "o-", "-o", "uo-", "ou-", "u-o", "os-", "uos-u", "uuos-", "o-s"}
+
+// ackBatch delivers ONE NotifyAcks call whose batch is laid out by shape. An
+// ack.call / ack.ret event pair is logged for every real call whose id is in
+// the batch: its acknowledgement is "received" when this NotifyAcks returned.
+func (w *world) ackBatch(primary int, shape string) {
+	n := w.cfg.N
+	var ids []int64
+	var involved []int
+	seen := map[int]bool{}
+	add := func(ci int) {
+		ids = append(ids, w.calls[ci].cfg.MsgID)
+		if !seen[ci] {
+			seen[ci] = true
+			involved = append(involved, ci)
+		}
+	}
+	for _, t := range shape {
+		switch {
+		case t == '-':
+			add(primary)
+		case t == 'o' && n > 1:
+			add((primary + 1) % n)
+		case t == 's' && n > 2:
+			add((primary + 2) % n)
+		default:
+			ids = append(ids, unknownIDBase+4*w.unknownCtr.Add(1))
+		}
+	}
+	for _, ci := range involved {
+		w.ev("ack.call", ci, len(ids), shape)
+	}
+	w.eng.NotifyAcks(ids)
+	for _, ci := range involved {
+		w.ev("ack.ret", ci, len(ids), shape)
+	}
+}
+
+const unknownIDBase = 0x7100000000
 
 func (w *world) cancelCall(i int) {
 	w.ev("cancel", i, 0, "")
